@@ -53,7 +53,7 @@ CHECKS = {
                 text="Decided: send_command's word DC low / [command] / DC high / args with error prefixes; pixel methods never touch DC and only write SPI; every written slice is the part staged in this round (never the whole buffer); every loop progresses - iterator loops consume a finite iterator, the repeat counter loop decreases by an amount entailed >= 1 (this found the zero-count hang); conservation in send_pixels: on every path round the staging loop N x (pixels taken from the caller's stream) equals the bytes added to the staged length plus the bytes written, and no path leaves the loop for the write having taken a pixel it did not stage (core::iter::Zip::next is modelled exactly, so an adaptor that pulls from the stream before finding the buffer full is seen). send_repeated_pixel: the counter starts at count, each round writes N x what it subtracts, the remainder write is N x what is left (total count*N); no assert!/panic! is reachable and every bounds, overflow and unwrap obligation of the two pixel methods is entailed whenever the buffer holds at least one pixel. Not decided: that chunk k carries pixel k (array contents).",
                 note="Level 'other' because which bytes sit in which chunk is not decided (counts, order of events and lengths are). Assumes the property's precondition len(buffer) >= N and a buffer shorter than 4 GiB. Found and fixed: count = 0 never terminated (commit d268bb6)."),
     "C07": dict(level="other", design="5/C07",
-                technique="DFA over interpreted event traces (loops as fixpoints) for the strobe protocol; per-pin polynomial equality for the bus cache invariant; Range trip-count and overflow obligations for the repeat fast path; the zero-count clause by interpretation under the assumption count = 0; the all-words-equal helper by the equalities its returning path has established",
+                technique="DFA over interpreted event traces (loops as fixpoints; every feasible path must be accepted, not merely some path) for the strobe protocol; per-pin polynomial equality for the bus cache invariant; Range trip-count and overflow obligations for the repeat fast path; the zero-count clause by interpretation under the assumption count = 0; the all-words-equal helper by the equalities its returning path has established",
                 text="Decided: every word is WR low + bus := word, then WR high; command byte with DC low, DC high before parameters, parameters and pixel words taken from the slice/array in order; per data pin (8 and 16 bit buses) the pin is driven iff the cache is empty or the bit differs, to the bit's level, early return iff the cache equals the value, cache Some(value) only after all pins succeeded and None after any pin failure (inductive step of 'pins show the last value' under arbitrary failures); the all-equal fast path is one full word plus a 1..count*N loop of bare strobes without bus updates, its count arithmetic cannot overflow, a zero repeat count produces no bus traffic, and the helper that selects the fast path answers Some(w) only after comparing every word equal to w.",
                 note="Level 'other': the equality of the latched sequence with the word sequence is reduced to these per-step obligations plus the finite-iterator contract; electrical timing out of scope. Found and fixed: u32 overflow of count*N (commit d3566e8)."),
     "C01": dict(level="other", design="5/C01",
@@ -73,7 +73,7 @@ CHECKS = {
                 text="Unclipped rectangles feed the stream directly into take(iw*ih); clipped ones consume exactly (iy-ay)*aw + (ix-ax) colours first on all four guard paths, then take iw and skip aw-iw per row; TakeSkip::next is decided per call (row not exhausted: one colour; exhausted: skip `skip`, yield next, counter := take-1; take=0: None), which by induction is 'colour k on point k'.",
                 note="Level 'other': the induction over calls and early-ending streams are argued, not mechanised. Trusted: core Iterator::nth/take contracts, e-g-core intersection contract. 16-bit-pointer helper variants: thorough tier (msp430 facts)."),
     "C08": dict(level="other", design="5/C08",
-                technique="DFA over interpreted event traces (loops as fixpoints) for the framing language; entailment of start<=end / end-inside-framebuffer; polynomial identity pixel count == window area; for the batched draw_iter, relational loop invariants of the row/block accumulators found by Houdini over type-generated candidates (checked inductively at loop entry and every back edge, equalities eliminated by Gaussian substitution)",
+                technique="DFA over interpreted event traces (loops as fixpoints; every feasible path must be accepted) for the framing language; entailment of start<=end / end-inside-framebuffer; polynomial identity pixel count == window area; for the batched draw_iter, relational loop invariants of the row/block accumulators found by Houdini over type-generated candidates (checked inductively at loop entry and every back edge, equalities eliminated by Gaussian substitution)",
                 text="Every drawing entry point (8 orientations, both batch settings) emits only groups CASET RASET RAMWR pixels, error paths being prefixes; for the fill methods, set_pixel and every window group draw_iter emits (batched or not) start <= end and the end is inside the framebuffer; fill_solid's repeat count and fill_contiguous's take limit equal (ex-sx+1)*(ey-sy+1) (on 16-bit targets the limit is a take_while predicate whose admitted count is decided from its body); every block the batched draw_iter flushes carries exactly (x_right-x_left+1)*(y_bottom-y_top+1) colours.",
                 note="Level 'other'. The accumulator invariants are derived for two orientations in the quick tier (they do not depend on it) and for all eight, plus the 16-bit-pointer build, in the thorough tier. Four big-endian bytes per address command: C18. That the colours inside a block are the right ones in the right order is decided under C03."),
     "C20": dict(level="other", design="5/C20",
